@@ -420,8 +420,90 @@ pub fn dispatch(op: &str, args: &[&str]) -> String {
             }
         }
         "search" | "session" => engine_ops::session_op(args),
+        "console" => console_op(args),
         _ => "bad-request".into(),
     }
+}
+
+/// format one engine-to-GUI message with the real `ConsoleUciTx` and return the line it prints
+fn console_op(args: &[&str]) -> String {
+    use inkayaku_uci::console::ConsoleUciTx;
+    use inkayaku_uci::{Bound, CurrentLine, Info, ProtectionMessage, Score, UciMove, UciTx};
+    use std::cell::RefCell;
+    let lines: RefCell<Vec<String>> = RefCell::new(Vec::new());
+    let tx = ConsoleUciTx::new(|s: &str| lines.borrow_mut().push(s.to_string()), |_: &str| {}, false);
+    let mv = |t: &str| UciMove::from_str(t).ok();
+    let mvs = |t: &str| -> Option<Vec<UciMove>> {
+        match t {
+            "-" => None,
+            "empty" => Some(Vec::new()),
+            _ => t.split(',').map(|m| UciMove::from_str(m).ok()).collect(),
+        }
+    };
+    let num = |t: &str| -> Option<u64> { if t == "-" { None } else { t.parse().ok() } };
+    let prot = |t: &str| match t { "checking" => ProtectionMessage::CHECKING, "ok" => ProtectionMessage::OK, _ => ProtectionMessage::ERROR };
+    match args[0] {
+        "bestmove" => tx.best_move(if args[1] == "-" { None } else { mv(args[1]) }, if args[2] == "-" { None } else { mv(args[2]) }),
+        "uciok" => tx.uci_ok(),
+        "readyok" => tx.ready_ok(),
+        "registration" => tx.registration(prot(args[1])),
+        "copyprotection" => tx.copy_protection(prot(args[1])),
+        "id" => {
+            let Some(text) = token_string(args[2]) else { return "bad-request".into() };
+            if args[1] == "name" { tx.id_name(&text) } else { tx.id_author(&text) }
+        }
+        "info" => {
+            let a = &args[1..];
+            if a.len() != 17 {
+                return "bad-request".into();
+            }
+            let score = match a[6] {
+                "-" => None,
+                t if t.starts_with("mate") => t[4..].parse().ok().map(|n| Score::Mate { mate_in: n }),
+                t if t.starts_with("cp") => {
+                    let parts: Vec<&str> = t[2..].split(':').collect();
+                    let v: i32 = parts[0].parse().unwrap();
+                    Some(match parts.get(1) {
+                        Some(&"lower") => Score::CentipawnBounded { score: v, bound: Bound::LOWER },
+                        Some(&"upper") => Score::CentipawnBounded { score: v, bound: Bound::UPPER },
+                        _ => Score::Centipawn { score: v },
+                    })
+                }
+                _ => return "bad-request".into(),
+            };
+            let current_line = if a[15] == "-" { None } else {
+                let (cpu, ms) = a[15].split_once(':').unwrap();
+                Some(CurrentLine::new(cpu.parse().unwrap(), mvs(ms).unwrap_or_default()))
+            };
+            let string = if a[16] == "-" { None } else { token_string(a[16]) };
+            let info = Info {
+                depth: num(a[0]).map(|x| x as u32),
+                selective_depth: num(a[1]).map(|x| x as u32),
+                time: num(a[2]).map(std::time::Duration::from_millis),
+                nodes: num(a[3]),
+                principal_variation: mvs(a[4]),
+                multi_pv: num(a[5]).map(|x| x as u32),
+                score,
+                current_move: if a[7] == "-" { None } else { mv(a[7]) },
+                current_move_number: num(a[8]).map(|x| x as u32),
+                hash_full: num(a[9]).map(|x| x as u32),
+                nps: num(a[10]),
+                table_hits: num(a[11]).map(|x| x as u32),
+                shredder_table_hits: num(a[12]).map(|x| x as u32),
+                cpu_load: num(a[13]).map(|x| x as u32),
+                string,
+                refutation: mvs(a[14]),
+                current_line,
+            };
+            tx.info(&info);
+        }
+        _ => return "bad-request".into(),
+    }
+    let out = lines.borrow();
+    if out.len() != 1 {
+        return format!("LINES {}", out.len());
+    }
+    string_token(&out[0])
 }
 
 fn table_op(args: &[&str]) -> String {
